@@ -31,7 +31,11 @@ func cmdViews(args []string) error {
 	in := fl.String("in", "", "TLC output with view case lines")
 	tmp := fl.String("tmp", "", "scratch for disk roots")
 	roots := fl.String("roots", "mem,disk", "root kinds to run")
+	naming := fl.String("naming", "", "\"prefix\": instantiate the model's names so that some start with the name of the disk root directory")
 	fl.Parse(args)
+	if *naming == "prefix" {
+		viewsx.SetNaming(map[string]string{"a": "rootx", "f": "rootf", "v": "roo"})
+	}
 	f, err := os.Open(*in)
 	if err != nil {
 		return err
@@ -133,6 +137,7 @@ func cmdViews(args []string) error {
 			}
 			base := strings.Join(c.Base, "/")
 			for _, q := range []string{"a", "f", "f/a", "a/f", "v/a", "v/f", "v/a/f", "v/f/a", "../a", "../f", "../f/a", "../a/f", "../../a", "../../f/a"} {
+				q = viewsx.RenamePath(q)
 				data, err := sub.ReadFile(q)
 				if err != nil || !strings.HasPrefix(string(data), "C:") {
 					continue
